@@ -13,7 +13,13 @@ separated by `,`, ops by `;`, groups by `|`. A file is `absent`, `t <code points
   have a row, else `bad-op`); curated rows `flag cps` separated by `;`; `<disk>` = the user
   dictionary file at the start. Ops and results:
   `add , w , ord`            → `F <disk> L <reload>`   (`bad-iter` if `ord` is no permutation)
-  `addf , name , w , ord`    → `F <disk> L <reload>`   (that file dictionary)
+  `addf , name , w , ord`    → `F <disk> L <reload>`   (that file dictionary; a `file:` URL)
+  `addfk , k , name , w , ord` → `F <disk> L <reload> N <n>`   (`HarperAddToFileDict` for a document of
+                               URL kind `k` = two bits `<scheme is untitled><to_file_path succeeds>`:
+                               `01` file:///a, `10` untitled:Untitled-1, `11` untitled:/a, `00` zq:opaque;
+                               `<n>` = number of file dictionaries that exist afterwards; `ord` must be
+                               empty when nothing is saved)
+  `lintk , k , name , qs`    → `A <bits>`              (a check of a document of URL kind `k`)
   `crash , w , ord , b`      → `F <disk> L <reload>`   (`b` = `pre` | byte offset into the new file)
   `restart`                  → `r`
   `lint , name , qs`         → `A <bits>`
@@ -106,6 +112,18 @@ def bits (bs : List Bool) : String := joinSp (bs.map fun b => if b then "1" else
 def fd (f : Fns) (d : Disk) : String :=
   (s!"F {showDisk d} L {showReload f d}").trimAscii.toString
 
+/-- URL kind: two bits, `<scheme is untitled><to_file_path succeeds>` -/
+def parseKind : String → Option UrlKind
+  | "01" => some fileUrl
+  | "10" => some untitledUrl
+  | "11" => some untitledPathUrl
+  | "00" => some opaqueUrl
+  | _ => none
+
+/-- number of file dictionaries that exist (names with a file on disk) -/
+def fileCount (s : State) : Nat :=
+  ((s.files.map (·.1)).eraseDups.filter fun n => fileDisk s.files n != .absent).length
+
 /-- one op of a history: `none` = unparsable, else the new state and the result text -/
 def doOp (tab : List Row) (f : Fns) (cur : List Entry) (s : State) (ws : List String) :
     Option (State × String) :=
@@ -126,9 +144,25 @@ def doOp (tab : List Row) (f : Fns) (cur : List Entry) (s : State) (ws : List St
       if !cov (w :: ord) then none
       else if !ord.isPerm (insert f w (loadOrEmpty f (fileDisk s.files n))) then some (s, "bad-iter")
       else
-        let s' := (step f cur s (.addFile n w ord)).1
+        let s' := (step f cur s (.addFile fileUrl n w ord)).1
         some (s', fd f (fileDisk s'.files n))
     | _, _, _ => none
+  | [["addfk"], [k], [n], w, ord] =>
+    match parseKind k, n.toNat?, charsOf w, parseList ord with
+    | some u, some n, some w, some ord =>
+      if !cov (w :: ord) then none
+      else
+        -- what `save_dict` is handed, if anything is saved at all
+        let saved : Option (List Word) :=
+          if u.path then (loadFileDict f u (fileDisk s.files n)).map (insert f w) else none
+        let okOrd := match saved with
+          | some d => ord.isPerm d
+          | none => ord.isEmpty
+        if !okOrd then some (s, "bad-iter")
+        else
+          let s' := (step f cur s (.addFile u n w ord)).1
+          some (s', fd f (fileDisk s'.files n) ++ s!" N {fileCount s'}")
+    | _, _, _, _ => none
   | [["crash"], w, ord, [b]] =>
     match charsOf w, parseList ord with
     | some w, some ord =>
@@ -150,9 +184,17 @@ def doOp (tab : List Row) (f : Fns) (cur : List Entry) (s : State) (ws : List St
     | some n, some qs =>
       if !cov qs then none
       else
-        let r := step f cur s (.lint n qs)
+        let r := step f cur s (.lint fileUrl n qs)
         some (r.1, ("A " ++ bits r.2).trimAscii.toString)
     | _, _ => none
+  | [["lintk"], [k], [n], qs] =>
+    match parseKind k, n.toNat?, parseList qs with
+    | some u, some n, some qs =>
+      if !cov qs then none
+      else
+        let r := step f cur s (.lint u n qs)
+        some (r.1, ("A " ++ bits r.2).trimAscii.toString)
+    | _, _, _ => none
   | [["jimp"], l] =>
     match parseList l with
     | some l =>
